@@ -29,8 +29,18 @@ REAL_VS_STUB = {
 }
 
 
-def _child_init():
+def _child_init(counter=None, ncpu=None):
     sys.path.insert(0, VERIF)
+    if counter is not None and os.environ.get("SIMREX_PIN", "1") == "1":
+        # pin each worker (and with it all its sim threads) to one core: baton hand-offs stay core-local
+        try:
+            with counter.get_lock():
+                i = counter.value
+                counter.value += 1
+            cpus = sorted(os.sched_getaffinity(0))
+            os.sched_setaffinity(0, {cpus[i % len(cpus)]})
+        except Exception:
+            pass
     from simrex import seams
 
     seams.configure_env()
@@ -164,7 +174,7 @@ def campaign(pid: str, mod_name: str, tier: str, master_seed: int, n_runs: int, 
     pool_broken = None
     submitted = 0
     try:
-        with ProcessPoolExecutor(max_workers=workers, mp_context=ctx, initializer=_child_init, max_tasks_per_child=opts.get("tasks_per_child", 40)) as ex:
+        with ProcessPoolExecutor(max_workers=workers, mp_context=ctx, initializer=_child_init, initargs=(ctx.Value("i", 0), None), max_tasks_per_child=opts.get("tasks_per_child", 40)) as ex:
             seed_iter = iter(_seed_stream(master_seed))
             pending = {}
 
